@@ -925,6 +925,10 @@ var FairOrder bool
 // (running thread, else lowest thread id, else first environment event) costs 1.
 var DeviationCost bool
 
+// Abort, set by a visit callback, ends the current Explore call (reported as capped): used once a
+// scenario has produced enough counterexamples.
+var Abort bool
+
 // Explore enumerates all schedules with at most bound deviations, depth-first.
 // exec runs one schedule; visit is called for each execution. Returns the number
 // of executions. budget (0 = none) caps the number of executions. With nshards > 1
@@ -932,9 +936,10 @@ var DeviationCost bool
 // index % nshards == shard (the root execution belongs to shard 0).
 func Explore(bound int, budget int64, shard, nshards int, exec func(prefix []int) *Result, visit func(prefix []int, r *Result)) (n int64, capped bool) {
 	child := 0
+	Abort = false
 	var rec func(prefix []int, depth int)
 	rec = func(prefix []int, depth int) {
-		if budget > 0 && n >= budget {
+		if (budget > 0 && n >= budget) || Abort {
 			capped = true
 			return
 		}
